@@ -183,7 +183,8 @@ def munu_case(draw):
             pts.append([180.0 * (1 + draw(uf)), math.degrees(math.asin(draw(uf)))])
     mus = [180.0 * (1 + draw(uf)) for _ in range(draw(st.integers(1, 4)))]
     return dict(stripe=stripe, points=pts, mus=mus, grid2d=draw(st.sampled_from([False, False, True])),
-                distance=draw(st.sampled_from([None, None, 0.5, 3.0, 1.0])))
+                distance=draw(st.sampled_from([None, None, 0.5, 3.0, 1.0])), rep=draw(st.sampled_from(['spherical', 'spherical', 'cartesian'])),
+                stripe_type=draw(st.sampled_from(['int', 'int', 'uint8', 'int64', 'uint16', 'float'])))
 
 
 def unit_radec(ra, dec):
@@ -215,7 +216,9 @@ def munu_body(case):
     s = case['stripe']
     P = np.array(case['points'], dtype='f8')
     node = 95.0
-    inc = call(stripe_to_incl, s)
+    # the stripe number as it comes out of a table column: a Python int, or a numpy (also unsigned) integer, or a float
+    s_arg = {'int': int, 'uint8': np.uint8, 'int64': np.int64, 'uint16': np.uint16, 'float': float}[case.get('stripe_type', 'int')](s)
+    inc = call(stripe_to_incl, s_arg)
     with judge('incl'):
         check(abs(float(inc) - incl_of(s)) < 1e-12, 'stripe_to_incl', lambda: dict(stripe=s, got=float(inc), want=incl_of(s)))
     ci, si = math.cos(math.radians(incl_of(s))), math.sin(math.radians(incl_of(s)))
@@ -227,12 +230,17 @@ def munu_body(case):
         # positions handed over as a 2-D (image-shaped) coordinate array
         k = 3 if len(P) % 3 == 0 else (2 if len(P) % 2 == 0 else 1)
         shp = (k, len(P) // k)
-    if case.get('distance'):
+    if case.get('rep') == 'cartesian':
+        # the same directions entered as Cartesian components (unit vectors, or scaled by a distance)
+        from astropy.coordinates import CartesianRepresentation
+        v = unit_radec(P[:, 0], P[:, 1]).reshape(shp + (3,)) * (case.get('distance') or 1.0)
+        icrs = ICRS(CartesianRepresentation(v[..., 0], v[..., 1], v[..., 2], unit=u.kpc if case.get('distance') else u.dimensionless_unscaled))
+    elif case.get('distance'):
         # positions that carry a distance: the direction is what is transformed
         icrs = ICRS(ra=P[:, 0].reshape(shp) * u.deg, dec=P[:, 1].reshape(shp) * u.deg, distance=np.full(shp, case['distance']) * u.kpc)
     else:
         icrs = ICRS(ra=P[:, 0].reshape(shp) * u.deg, dec=P[:, 1].reshape(shp) * u.deg)
-    mn = call(icrs.transform_to, SDSSMuNu(stripe=s), what='ICRS->SDSSMuNu')
+    mn = call(icrs.transform_to, SDSSMuNu(stripe=s_arg), what='ICRS->SDSSMuNu')
     with judge('forward'):
         check(np.shape(mn.mu) == shp, 'munu:shape-not-kept', lambda: dict(got=np.shape(mn.mu), want=shp))
         mu = np.asarray(mn.mu.to(u.deg).value, dtype='f8').ravel()
@@ -256,7 +264,7 @@ def munu_body(case):
                 check(abs(s0 - s1) < 2 * max(tol_deg(nu_ref, P[:, 1])[[i, j]]), 'munu:separation-not-preserved', lambda: dict(stripe=s, i=i, j=j, before=float(s0), after=float(s1)))
     # nu = 0 traces the great circle of inclination incl through node RA
     M = np.array(case['mus'], dtype='f8')
-    gc = call(SDSSMuNu(mu=M * u.deg, nu=np.zeros(len(M)) * u.deg, stripe=s).transform_to, ICRS(), what='SDSSMuNu->ICRS')
+    gc = call(SDSSMuNu(mu=M * u.deg, nu=np.zeros(len(M)) * u.deg, stripe=s_arg).transform_to, ICRS(), what='SDSSMuNu->ICRS')
     with judge('great-circle'):
         ra = np.asarray(gc.ra.to(u.deg).value, dtype='f8')
         dec = np.asarray(gc.dec.to(u.deg).value, dtype='f8')
